@@ -168,7 +168,7 @@ pub fn eval_field(doc: &mut Document, field: &str) -> String {
             Ok(format!("{}{},{}", t.toc.len(), t.toc.iter().map(|x| format!(":{}.{}", x.level, x.page)).collect::<String>(), t.errors.len()))
         }),
         // extract_text compared with the composed model (C13 pages/fonts + C09 filters + C14 parser + C16 text loop);
-        // `?` = outside that model: ToUnicode font (C15), UTF-16 Encoding name (encoding_rs), filtered content (flate2 / weezl)
+        // + C15 ToUnicode CMaps); `?` = outside that model: UTF-16 Encoding name (encoding_rs), filtered content / ToUnicode stream (flate2 / weezl)
         "xt" => run_field(|| {
             let pages = doc.get_pages();
             let nums: Vec<u32> = (1..=(pages.len().min(3) as u32)).collect();
@@ -176,7 +176,8 @@ pub fn eval_field(doc: &mut Document, field: &str) -> String {
                 let pid = pages[k];
                 if let Ok(fonts) = doc.get_page_fonts(pid) {
                     for (_, f) in fonts {
-                        if f.has(b"ToUnicode") || matches!(f.get(b"Encoding").and_then(Object::as_name), Ok(b"UniGB-UCS2-H") | Ok(b"UniGB-UTF16-H")) { return Ok("?".into()); }
+                        if matches!(f.get_deref(b"ToUnicode", doc), Ok(Object::Stream(st)) if st.dict.has(b"Filter"))
+                            || matches!(f.get(b"Encoding").and_then(Object::as_name), Ok(b"UniGB-UCS2-H") | Ok(b"UniGB-UTF16-H")) { return Ok("?".into()); }
                     }
                 }
                 for id in doc.get_page_contents(pid) {
@@ -257,8 +258,22 @@ const KEYS: [&str; 36] = ["Type", "Kids", "Parent", "Count", "Contents", "Resour
 const NAMES: [&str; 26] = ["Page", "Pages", "Catalog", "Font", "XObject", "Image", "Form", "GoTo", "GoToR", "URI", "Fit", "XYZ",
     "StandardEncoding", "MacRomanEncoding", "MacExpertEncoding", "WinAnsiEncoding", "PDFDocEncoding", "Identity-H", "Identity-V",
     "UniGB-UCS2-H", "CryptFilter", "V2", "AESV2", "AESV3", "Identity", "DeviceRGB"];
-const CMAP: &[u8] = b"/CIDInit /ProcSet findresource begin 12 dict begin begincmap /CMapName /X def 1 begincodespacerange <00> <FF> endcodespacerange 2 beginbfchar <41> <0041> <42> <0062> endbfchar endcmap end end";
+const CMAP: &[u8] = b"/CIDInit /ProcSet findresource begin\n12 dict begin\nbegincmap\n/CMapName /Adobe-Identity-UCS def\n/CMapType 2 def\n1 begincodespacerange\n<00> <FF>\nendcodespacerange\n2 beginbfchar\n<41> <0041>\n<42> <0062>\nendbfchar\nendcmap\nCMapName currentdict /CMap defineresource pop\nend\nend\n";
 const CONTENT: &[u8] = b"BT /F1 12 Tf (Hello) Tj [(A) -200 (B)] TJ ET BT /F2 9 Tf <4142> Tj ET";
+/// ToUnicode CMap texts (in the shape `cmap_stream` accepts): bfchar / bfrange (incrementing, array), 1-, 2- and 4-byte codes,
+/// ligature and surrogate-pair targets, overlapping definitions, a BOM target, an unpaired surrogate and a target running past
+/// FFFF; damaged ones: a range with end < start (4), a truncated text (5)
+const CMAPS: [&[u8]; 7] = [CMAP,
+    b"/CIDInit /ProcSet findresource begin\n12 dict begin\nbegincmap\n/CMapName /Adobe-Identity-UCS def\n/CMapType 2 def\n1 begincodespacerange\n<0000> <FFFF>\nendcodespacerange\n2 beginbfrange\n<0041> <0043> <0061>\n<0048> <0049> [<00660069> <D83DDE00>]\nendbfrange\n1 beginbfchar\n<0042> <FEFF0058>\nendbfchar\nendcmap\nCMapName currentdict /CMap defineresource pop\nend\nend\n",
+    b"/CIDInit /ProcSet findresource begin\n12 dict begin\nbegincmap\n/CMapName /Adobe-Identity-UCS def\n/CMapType 2 def\n1 begincodespacerange\n<00> <FF>\nendcodespacerange\n2 beginbfrange\n<41> <48> <0030>\n<42> <44> [<0058> <0059>]\nendbfrange\nendcmap\nCMapName currentdict /CMap defineresource pop\nend\nend\n",
+    b"/CIDInit /ProcSet findresource begin\n12 dict begin\nbegincmap\n/CMapName /Adobe-Identity-UCS def\n/CMapType 2 def\n1 beginbfrange\n<41> <42> <00660069>\nendbfrange\n1 beginbfchar\n<48656c6c> <0021>\nendbfchar\nendcmap\nCMapName currentdict /CMap defineresource pop\nend\nend\n",
+    b"/CIDInit /ProcSet findresource begin\n12 dict begin\nbegincmap\n/CMapName /Adobe-Identity-UCS def\n/CMapType 2 def\n1 beginbfrange\n<44> <41> <0030>\nendbfrange\nendcmap\nCMapName currentdict /CMap defineresource pop\nend\nend\n",
+    b"/CIDInit /ProcSet findresource begin\n12 dict begin\nbegincmap\n/CMapName /Adobe-Identity-UCS def\n/CMapType 2 def\n1 beginbfchar\n<41> <00",
+    b"/CIDInit /ProcSet findresource begin\n12 dict begin\nbegincmap\n/CMapName /Adobe-Identity-UCS def\n/CMapType 2 def\n1 beginbfchar\n<41> <DC00>\nendbfchar\n1 beginbfrange\n<42> <48> <FFFE>\nendbfrange\nendcmap\nCMapName currentdict /CMap defineresource pop\nend\nend\n"];
+const CONTENTS: [&[u8]; 4] = [CONTENT,
+    b"BT /F1 12 Tf (Hello ABCH) Tj ET BT /F2 9 Tf <004100420043004800490041> Tj [(AB) -300 <4142>] TJ ET",
+    b"BT /F2 10 Tf (ABCDEFGH) Tj <48656c6c6f> Tj ET /F1 8 Tf [(x) 5 (y)] TJ",
+    b"BT /F1 1 Tf (A) Tj /F2 1 Tf (B\\(C\\)) Tj /F3 1 Tf (D) Tj ET"];
 
 struct Gen<'a> { r: &'a mut Rng, doc: Document, next: u32 }
 impl<'a> Gen<'a> {
@@ -274,9 +289,9 @@ impl<'a> Gen<'a> {
             0 => {}
             1 | 2 => { d.set("Encoding", name("WinAnsiEncoding")); }
             3 => { d.set("Encoding", name(*self.r.pick(&["StandardEncoding", "MacRomanEncoding", "MacExpertEncoding", "PDFDocEncoding"]))); }
-            4 | 5 => { d.set("Encoding", name(*self.r.pick(&["Identity-H", "Identity-V"]))); let t = self.add(stream(Dictionary::new(), CMAP)); d.set("ToUnicode", rf(t)); }
+            4 | 5 => { d.set("Encoding", name(*self.r.pick(&["Identity-H", "Identity-V"]))); let cm = CMAPS[if self.r.chance(1, 7) { 4 + self.r.usize(2) } else { *self.r.pick(&[0usize, 1, 2, 3, 6]) }]; let t = self.add(stream(Dictionary::new(), cm)); d.set("ToUnicode", rf(t)); }
             6 => { d.set("Encoding", name("UniGB-UCS2-H")); }
-            _ => { let t = self.add(stream(Dictionary::new(), CMAP)); d.set("ToUnicode", rf(t)); }
+            _ => { let cm = CMAPS[if self.r.chance(1, 7) { 4 + self.r.usize(2) } else { *self.r.pick(&[0usize, 1, 2, 3, 6]) }]; let t = self.add(stream(Dictionary::new(), cm)); d.set("ToUnicode", rf(t)); }
         }
         Object::Dictionary(d)
     }
@@ -311,8 +326,8 @@ impl<'a> Gen<'a> {
         let mut d = dict(vec![("Type", name("Page")), ("Parent", rf(parent))]);
         match self.r.below(5) {
             0 => {}
-            1 | 2 => { let s = self.add(stream(Dictionary::new(), CONTENT)); let c = if self.r.chance(1, 5) { let s2 = self.add(rf(s)); rf(s2) } else { rf(s) }; d.set("Contents", c); }
-            _ => { let n = 1 + self.r.usize(3); let v: Vec<Object> = (0..n).map(|_| rf(self.add(stream(Dictionary::new(), CONTENT)))).collect();
+            1 | 2 => { let ct = *self.r.pick(&CONTENTS); let s = self.add(stream(Dictionary::new(), ct)); let c = if self.r.chance(1, 5) { let s2 = self.add(rf(s)); rf(s2) } else { rf(s) }; d.set("Contents", c); }
+            _ => { let n = 1 + self.r.usize(3); let v: Vec<Object> = (0..n).map(|_| { let ct = *self.r.pick(&CONTENTS); rf(self.add(stream(Dictionary::new(), ct))) }).collect();
                    let a = self.maybe_ref(Object::Array(v), 25); d.set("Contents", a); }
         }
         if self.r.chance(3, 4) { let res = self.resources(); let ro = self.maybe_ref(Object::Dictionary(res), 50); d.set("Resources", ro); }
@@ -424,6 +439,11 @@ fn gen_valid(r: &mut Rng) -> (Document, Vec<ObjectId>) {
 fn chaos_value(r: &mut Rng, refs: &[ObjectId], depth: usize, key: &str) -> Object {
     let link = matches!(key, "Kids" | "Parent" | "Contents" | "Resources" | "First" | "Next" | "Annots" | "Outlines" | "Dests" | "Names" | "Root" | "Pages" | "A" | "Font" | "XObject" | "ToUnicode" | "Encrypt" | "Dest" | "D" | "Title");
     let k = if link && r.chance(1, 2) { if r.chance(3, 4) { 9 } else { 6 } } else { r.below(11) };
+    chaos_value_kind(r, refs, depth, key, k)
+}
+/// the value kinds of the typed chaos: 0 null, 1 bool, 2 int, 3 real, 4 name, 5 string, 6 array, 7 dictionary, 8 stream, 9.. reference
+const N_KINDS: u64 = 11;
+fn chaos_value_kind(r: &mut Rng, refs: &[ObjectId], depth: usize, key: &str, k: u64) -> Object {
     match k {
         0 => Object::Null,
         1 => Object::Boolean(r.chance(1, 2)),
@@ -707,7 +727,7 @@ pub fn run(c: &mut Ctx) {
     c.rule = "documents = well-formed generator output (page tree, Contents direct/array/chained, Resources direct/by reference/inherited, \
 fonts with every Encoding branch, image XObjects, Annots, outlines with Dest/A/named destinations, name trees, Encrypt/CF) with 0-12 typed-chaos \
 mutations (a key the queries read re-bound to a value of a random kind or to a reference, possibly forming cycles); every query runs on the real \
-Document in the isolated worker on 3-5 target ids; non-trivial = every case (distinct by request text); every walker runs on every document (cyclic Next / First / Kids included: seen-sets); stream `refchains`: for each of 34 keys a query looks up x 24 chain shapes (acyclic 1..5 and 126..129 hops, dangling, self loop, ring 2..4, rho-shape tail 1..5 + ring 1..4, chains ending in an array / name / array of references) the value of the key — or an item of its array — is put behind a chain of bare reference objects; a query that does not return in the isolated worker is an oracle failure hang:<query> / abort:<query> with the document as replay".into();
+Document in the isolated worker on 3-5 target ids; non-trivial = every case (distinct by request text); every walker runs on every document (cyclic Next / First / Kids included: seen-sets); stream `refchains`: for each of 34 keys a query looks up x 24 chain shapes (acyclic 1..5 and 126..129 hops, dangling, self loop, ring 2..4, rho-shape tail 1..5 + ring 1..4, chains ending in an array / name / array of references) the value of the key — or an item of its array — is put behind a chain of bare reference objects; a query that does not return in the isolated worker is an oracle failure hang:<query> / abort:<query> with the document as replay; stream `systematic`: every key x every value kind (null, bool, int, real, name, string, array, dictionary, stream, reference) x {trailer, a dictionary that has the key, any dictionary} once per run".into();
     let _ = guard(|| ());
     // ---------------- well-formed documents
     let mut batch = vec![]; let mut docs = vec![];
@@ -765,6 +785,7 @@ Document in the isolated worker on 3-5 target ids; non-trivial = every case (dis
     }
     run_batch(c, batch, &docs);
     refchain_stream(c);
+    systematic_stream(c);
     known_streams(c);
 }
 
@@ -850,6 +871,44 @@ fn chainify(r: &mut Rng, doc: &mut Document, key: &str, shape: Shape) -> Option<
     let o = doc.objects.get_mut(&id).unwrap();
     with_nth_dict(o, 0, &mut 0, idx, &mut |d| { if let Some(v) = new.take() { d.set(key, v); } });
     Some(Some(id))
+}
+
+
+/// every key the queries read x every value kind x {trailer, a dictionary that has the key, any dictionary}: one deterministic
+/// re-binding per case, so that a rare combination (e.g. a DIRECT dictionary under /Encrypt in the trailer) is in every run
+fn systematic_stream(c: &mut Ctx) {
+    let mut batch = vec![]; let mut docs = vec![];
+    let combos = KEYS.len() as u64 * N_KINDS * 3;
+    for i in 0..c.n(combos, combos * 4) {
+        let Some(mut r) = c.case("systematic", i) else { continue };
+        let key = KEYS[(i % KEYS.len() as u64) as usize];
+        let kind = (i / KEYS.len() as u64) % N_KINDS;
+        let loc = (i / (KEYS.len() as u64 * N_KINDS)) % 3;
+        let (mut doc, leaves) = gen_valid(&mut r);
+        let ids: Vec<ObjectId> = doc.objects.keys().cloned().collect();
+        let v = chaos_value_kind(&mut r, &ids, 0, key, kind);
+        c.count(&format!("systematic.kind{}", kind)); c.count(&format!("systematic.loc{}", loc));
+        let mut owner = None;
+        if loc == 0 { doc.trailer.set(key, v); }
+        else {
+            let mut slots: Vec<(ObjectId, usize)> = vec![];
+            for (id, o) in doc.objects.iter() { let mut fl = vec![]; dict_flags(o, 0, key.as_bytes(), &mut fl); for (k, f) in fl.iter().enumerate() { if *f || loc == 2 { slots.push((*id, k)); } } }
+            if slots.is_empty() { for (id, o) in doc.objects.iter() { let mut fl = vec![]; dict_flags(o, 0, key.as_bytes(), &mut fl); for k in 0..fl.len() { slots.push((*id, k)); } } }
+            if let Some((id, idx)) = if slots.is_empty() { None } else { Some(*r.pick(&slots)) } {
+                let mut v = Some(v);
+                with_nth_dict(doc.objects.get_mut(&id).unwrap(), 0, &mut 0, idx, &mut |d| { if let Some(v) = v.take() { d.set(key, v); } });
+                owner = Some(id);
+            }
+        }
+        if i >= combos && r.chance(1, 2) { let n = 1 + r.usize(3); chaos(&mut r, &mut doc, n, c); }
+        let mut targets = pick_targets(&mut r, &doc, &leaves);
+        if let Some(o) = owner { targets.insert(0, o); targets.truncate(5); targets.dedup(); }
+        let hz = analyse(&doc, &targets);
+        let req = request("all", &targets, &doc);
+        c.nontrivial(&req);
+        batch.push(Pending { case_id: c.cur, stream: "systematic".into(), req, doc_targets: targets, hazard: hz }); docs.push(doc);
+    }
+    run_batch(c, batch, &docs);
 }
 
 fn refchain_stream(c: &mut Ctx) {
